@@ -90,6 +90,18 @@ class StmtMixin:
             raise Unsupported("statement " + type(s).__name__ + ": " + src(s).split("\n")[0])
         return m(s, env, lambda env2: self.block(rest, env2, fall))
 
+    def s_FunctionDef(self, s, env, nxt):
+        """a local generator function whose body is a sequence of `yield e` / `yield from e`: inlined at its calls"""
+        a = s.args
+        if a.vararg or a.kwarg or a.kwonlyargs or a.defaults or s.decorator_list:
+            raise Unsupported("local function " + s.name)
+        for st in s.body:
+            if not (isinstance(st, ast.Expr) and (isinstance(st.value, (ast.Yield, ast.YieldFrom))
+                                                  or isinstance(st.value, ast.Constant))):
+                raise Unsupported("local function {} is not a plain generator".format(s.name))
+        self.local_defs[s.name] = s
+        return nxt(env)
+
     def s_Continue(self, s, env, nxt):
         if not self.loop_falls:
             raise Unsupported("continue outside a for loop")
@@ -385,6 +397,9 @@ class StmtMixin:
             env2, _ = self.assign_target(target, "()", ERASED, env)
             return nxt(env2)
         # effect objects: creation, another name for the same object, a method call with a result
+        if isinstance(v, ast.Call) and isinstance(v.func, ast.Name) and v.func.id in self.effect_ctors \
+                and isinstance(target, ast.Name):
+            return self.effect_ctor_stmt(v, target, env, nxt)
         new = self.effect_new(v, env)
         if new is not None and isinstance(target, ast.Name):
             env2 = dict(env)
